@@ -179,6 +179,13 @@ def c09_models(tier, ruin="done"):
         [Rec(t=grid[1] + L, kind="q", c="F4", bid=6, ask=6)]
     ms.append(full_model("crash-latent-stay", ["S1", "F4"], ["S1", "F4"], grid, ev_e, tg[:2] + [{}], lats=(L,), delays=(0, 1),
                          maxsteps=4, ruin=ruin, invariants=C09_INV, properties=C09_PROPS))
+    # insolvency through the interest due: 4x long spot financed at 3/16 a year; after a year the position is worth more
+    # than the loan but less than loan + interest, so the decision of that step finds the account insolvent
+    ygrid = [YEAR * k for k in range(1, 5)]
+    ev_f = bars(ygrid, {"S1": [8, 7, 7, 8], "F4": [8, 8, 8, 8]}, 0)
+    ms.append(full_model("crash-interest", ["S1", "F4"], ["S1", "F4"], ygrid, ev_f, [{"S1": F(4)}, {"S1": F(2)}, {}], lats=(0,),
+                         delays=(0,), rate=F(1, 8), markup=F(1, 16), yearlen=YEAR, maxsteps=3, ruin=ruin, base=(1989, 1, 1),
+                         invariants=C09_INV, properties=C09_PROPS))
     if tier != "quick":
         ev_d = bars(grid, {"S1": [12, 12, 12, 12, 12], "F4": [12, 12, 8, 12, 12]}, {"S1": 0, "F4": 4})
         ms.append(full_model("crash-fees", ["S1", "F4"], ["S1", "F4"], grid, ev_d, tg, lats=(0, L), delays=(0, 1), fees="dy",
